@@ -20,8 +20,15 @@ one period later (both to 1e-9 of the period, see time_slack); the log is non-de
 taps one to one; final phases in [0, 1]; on complete networks the number of distinct phases (as
 getPhase(normalise=True) rounds them, and as exact pending times) never increases and the largest group never
 shrinks, sampled whenever no node is due at the current time (i.e. after every batch of same-time firings).
-A run cut off by the event budget is judged by nothing; obs['stats'] counts them (budget_cut)."""
+A run cut off by the event budget is judged by nothing; obs['stats'] counts them (budget_cut).
+
+Earlier runs on the SAME process and dynamics objects (case['before'], case['prerun']) come before the observed run:
+whole runs on ANOTHER network (dyn.setNetworkGenerator between the runs: other order, other node set, other edges), and
+runs that are abandoned inside set-up after the oscillators posted their firings (epyc calls tearDown() only when
+setUp() completed).  The observed run is judged exactly as a first run is: nothing an earlier run left in the
+objects is allowed to reach it."""
 import itertools
+import logging
 import math
 from fractions import Fraction
 
@@ -29,7 +36,7 @@ import networkx
 
 from vlib import coqlit as L
 from vlib.core import Harness
-from vlib.oracle import Oracle, install, uninstall
+from vlib.oracle import Oracle, ScriptExhausted, install, uninstall
 
 PREC = 5
 
@@ -74,6 +81,10 @@ def gen_graph(rnd, kind=None, lo=2, hi=8):
 # ---------------------------------------------------------------- running the implementation
 class Budget(Exception):
     pass
+
+
+class Abandoned(Exception):
+    """raised by the harness's wrapper around the process' setUp, after the original returned: the run ends inside set-up"""
 
 
 def run_case(case, budget=140):
@@ -161,9 +172,14 @@ def run_case(case, budget=140):
     dyn.eventFired = tap
     orig_setup = proc.setUp
 
+    stop = [None]         # how the run in progress ends: None (observed run), 'earlier' (whole run), 'after-setup'
+
     def setup(params):
         orig_setup(params)
-        snapshot('setup')
+        if stop[0] == 'after-setup':
+            raise Abandoned('set-up abandoned after the process was set up')
+        if stop[0] is None:
+            snapshot('setup')
     proc.setUp = setup
 
     own = {PulseCoupledOscillator.PERIOD: case['period'], PulseCoupledOscillator.B: case['b'],
@@ -174,26 +190,63 @@ def run_case(case, budget=140):
         # a named instance reads its own (decorated) parameters; the plain names carry other values for somebody else
         params = dict(case.get('decoy') or {})
         proc.setParameters(params, own)
-    pre = None
-    if case.get('prerun'):
-        # an earlier run on the SAME objects (other initial states): its results must stay what they were
-        # when it returned, whatever happens afterwards
-        pre_taps = []
-        dyn.eventFired = lambda t, p, name, e: pre_taps.append([t, e])
-        install(Oracle(seed=0, script={'random': list(case['prerun'])}, strict=True))
+    key = proc.decoratedNameInInstance(PulseCoupledOscillator.FIRING_TIMES)
+    keyn = proc.decoratedNameInInstance(PulseCoupledOscillator.FIRING_NODES)
+
+    def earlier_run(spec):
+        """a run on the SAME objects before the observed one.  spec: states (the scripted initial states), graph (another
+        network, handed over with setNetworkGenerator; None = the case's own), stop: None = a whole run, whose results must
+        stay what they were when it returned; 'after-setup' = the harness's wrapper around the process' setUp raises after the
+        original returned; 'in-setup' = the scripted states run out while the phases are initialised (the states are fewer
+        than the nodes).  Either way the run ends inside set-up, so epyc does not call tearDown().  fatal: how run() is called."""
+        how = spec.get('stop')
+        fatal = spec.get('fatal', True)
+        dyn.setNetworkGenerator(make_graph(spec['graph']) if spec.get('graph') else g)
+        stop[0] = 'after-setup' if how == 'after-setup' else 'earlier'
+        etaps = []
+
+        def etap(t, p, name, e):
+            etaps.append([t, e])
+            if len(etaps) > budget:
+                raise Budget('more than %d events' % budget)
+        dyn.eventFired = etap
+        install(Oracle(seed=0, script={'random': list(spec['states'])}, strict=True))
+        rec = {'stop': how, 'other_network': bool(spec.get('graph')), 'exception': None, 'expected_end': False, 'budget_cut': False}
+        if not fatal:
+            logging.disable(logging.CRITICAL)          # epyc logs the exception it swallows
         try:
-            prc = dyn.set(params).run(fatal=True)
+            prc = dyn.set(params).run(fatal=fatal)
+            e = prc.get(epyc.Experiment.METADATA, {}).get(epyc.Experiment.EXCEPTION) if not fatal else None
+            if e is not None:
+                raise e
             pres = prc.get(epyc.Experiment.RESULTS, {})
-            key = proc.decoratedNameInInstance(PulseCoupledOscillator.FIRING_TIMES)
-            keyn = proc.decoratedNameInInstance(PulseCoupledOscillator.FIRING_NODES)
-            pre = {'taps': pre_taps, 'times_obj': pres.get(key), 'nodes_obj': pres.get(keyn),
-                   'times_then': list(pres.get(key) or []), 'nodes_then': list(pres.get(keyn) or [])}
+            rec.update(taps=etaps, times_obj=pres.get(key), nodes_obj=pres.get(keyn),
+                       times_then=list(pres.get(key) or []), nodes_then=list(pres.get(keyn) or []))
+        except Budget:
+            rec['budget_cut'] = True
+        except (Abandoned, ScriptExhausted) as e:
+            rec['expected_end'] = how is not None
+            rec['exception'] = type(e).__name__ + ': ' + str(e)
         except Exception as e:
-            pre = {'exception': type(e).__name__ + ': ' + str(e)}
+            rec['exception'] = type(e).__name__ + ': ' + str(e)
         finally:
             uninstall()
+            if not fatal:
+                logging.disable(logging.NOTSET)
+        if how is not None and rec['exception'] is None and not rec['budget_cut']:
+            raise RuntimeError('harness: a run that was to be abandoned in set-up completed')
+        return rec
+
+    before = list(case.get('before') or [])
+    if case.get('prerun'):
+        # an earlier run on the SAME objects and the same network (other initial states)
+        before.append({'states': list(case['prerun'])})
+    earlier = [earlier_run(spec) for spec in before]
+    if before:
         del calls[:], orders[:], fired_calls[:], snaps[:], taps[:]
+        dyn.setNetworkGenerator(g)
         dyn.eventFired = tap
+        stop[0] = None
     install(orc)
     exc = None
     rc = None
@@ -209,12 +262,13 @@ def run_case(case, budget=140):
     if inst is not None:
         res = {proc.undecoratedName(k) if isinstance(k, str) else k: v for k, v in res.items()}
     md = (rc or {}).get(epyc.Experiment.METADATA, {}) if rc else {}
-    earlier = None
-    if pre is not None and 'exception' not in pre:
-        earlier = {'taps': pre['taps'], 'times_then': pre['times_then'], 'nodes_then': pre['nodes_then'],
-                   'times_now': list(pre['times_obj'] or []), 'nodes_now': list(pre['nodes_obj'] or [])}
+    for rec in earlier:
+        # what the earlier run returned, as it is now
+        if 'taps' in rec:
+            rec['times_now'] = list(rec.pop('times_obj') or [])
+            rec['nodes_now'] = list(rec.pop('nodes_obj') or [])
     obs = {
-        'earlier': earlier, 'earlier_exception': (pre or {}).get('exception'),
+        'earlier': earlier,
         'exception': exc, 'calls': calls, 'orders': orders, 'fired_calls': fired_calls, 'snaps': snaps, 'taps': taps,
         'randoms_used': len(orc.values('random')),
         'firing_times': res.get(PulseCoupledOscillator.FIRING_TIMES), 'firing_nodes': res.get(PulseCoupledOscillator.FIRING_NODES),
@@ -228,6 +282,9 @@ def run_case(case, budget=140):
     if cut:
         obs['skipped'] = True
     obs['stats'] = {'budget_cut': int(cut), 'events_tapped': len(taps),
+                    'earlier_whole_runs_on_another_network': sum(1 for r in earlier if r['other_network'] and 'taps' in r),
+                    'earlier_runs_abandoned_in_setup': sum(1 for r in earlier if r['expected_end']),
+                    'earlier_runs_budget_cut': sum(1 for r in earlier if r['budget_cut']),
                     'complete_network': int(is_complete(case)), 'one_node': int(len(nodes) == 1),
                     'period_off_1e-6_grid': int(round(case['period'], 6) != case['period'])}
     return obs
@@ -343,17 +400,18 @@ def direct(case, obs):
     if obs['exception'] is not None:
         bad('exception', exception=obs['exception'])
         return out
-    if obs.get('earlier_exception'):
-        bad('exception-in-earlier-run', exception=obs['earlier_exception'])
-    er = obs.get('earlier')
-    if er:
-        # the log an earlier run on the same objects reported: one entry per FIRED tap of THAT run, then and now
-        tt = [x[0] for x in er['taps']]
-        tn = [x[1] for x in er['taps']]
-        if er['times_then'] != tt or er['nodes_then'] != tn:
-            bad('firing-log-not-the-taps:earlier-run', log=er['times_then'], taps=tt)
-        elif er['times_now'] != tt or er['nodes_now'] != tn:
-            bad('results-of-an-earlier-run-changed-by-a-later-run', reported=tt[:8], now=er['times_now'][:8])
+    for k, er in enumerate(obs.get('earlier') or []):
+        if er['exception'] and not er['expected_end']:
+            # a whole run on the same objects (on this or another network) raised, or set-up ended otherwise than arranged
+            bad('exception-in-earlier-run', run=k, exception=er['exception'], other_network=er['other_network'])
+        if 'taps' in er:
+            # the log an earlier run on the same objects reported: one entry per FIRED tap of THAT run, then and now
+            tt = [x[0] for x in er['taps']]
+            tn = [x[1] for x in er['taps']]
+            if er['times_then'] != tt or er['nodes_then'] != tn:
+                bad('firing-log-not-the-taps:earlier-run', run=k, log=er['times_then'], taps=tt)
+            elif er['times_now'] != tt or er['nodes_now'] != tn:
+                bad('results-of-an-earlier-run-changed-by-a-later-run', run=k, reported=tt[:8], now=er['times_now'][:8])
     period = case['period']
     nodes = make_graph(case['graph']).nodes()
     nn = len(nodes)
@@ -510,9 +568,55 @@ def gen_case(rnd, tier='quick'):
         case.update(graph=g, dynamics=dyn, period=per, b=rnd.choice(INEXACT_BS), coupling=rnd.choice(NEG_COUPLINGS),
                     states=[rnd.choice(base) for _ in range(k)],
                     maxtime=float(max(2, math.ceil(mt))) if dyn == 'synchronous' else mt)
-    if rnd.random() < 0.25:
+    if rnd.random() < 0.4:
+        case['before'] = gen_before(rnd, case)
+    elif rnd.random() < 0.25:
         case['prerun'] = [rnd.randrange(0, DYADIC) / float(DYADIC) for _ in range(len(case['states']))]
     return case
+
+
+BEFORE_PATTERNS = [['other'], ['other'], ['other'], ['other', 'other'], ['stop'], ['stop'], ['stop'], ['other', 'stop'],
+                   ['stop', 'other'], ['stop', 'stop']]
+
+
+def other_graph(rnd, graph):
+    """another network for an earlier run on the same objects: other node order, other node set (more nodes, fewer, or as
+    many), other edges; sparse ones for a complete network, so that the neighbourhoods differ on the nodes the two share"""
+    n = len(graph['nodes'])
+    how = rnd.choice(['larger', 'larger', 'same', 'same', 'smaller'])
+    if how == 'larger' and n < 10:
+        lo, hi = n + 1, min(n + 3, 11)
+    elif how == 'smaller' and n > 2:
+        lo, hi = max(1, n - 3), n - 1
+    else:
+        lo, hi = n, n
+    kind = rnd.choice(['cycle', 'star', 'random', 'random', 'complete', 'loops'])
+    if graph['kind'] == 'complete' and rnd.random() < 0.6:
+        kind = rnd.choice(['cycle', 'star', 'random'])
+    g = gen_graph(rnd, kind, lo, hi)
+    if rnd.random() < 0.5:
+        g['nodes'] = list(reversed(g['nodes']))
+    return g
+
+
+def gen_before(rnd, case):
+    """earlier runs on the same process and dynamics objects: whole runs on another network, and runs abandoned inside
+    set-up once (some of) the oscillators have posted their firings - on the case's own network or on another one"""
+    out = []
+    for what in rnd.choice(BEFORE_PATTERNS):
+        spec = {}
+        n = len(case['states'])
+        if what == 'other' or rnd.random() < 0.3:
+            spec['graph'] = other_graph(rnd, case['graph'])
+            n = len(spec['graph']['nodes'])
+        if what == 'stop':
+            spec['stop'] = 'in-setup' if n >= 2 and rnd.random() < 0.35 else 'after-setup'
+            spec['fatal'] = rnd.random() < 0.7
+            if spec['stop'] == 'in-setup':
+                n = rnd.randrange(1, n)            # the scripted states run out after this many nodes
+        spec['states'] = [rnd.randrange(0, DYADIC) / float(DYADIC) for _ in range(n)]
+        out.append(spec)
+    return out
 
 
 class H(Harness):
@@ -533,7 +637,10 @@ class H(Harness):
             'complete networks of 2-5 nodes with off-grid periods, a third of them random 9-decimal periods in 0.001-0.02 (F13 and the '
             'same defect at finer roundings); a stream (7 %) of equal groups on K2-K4 with a dissipation at which phaseToState(1.0) != 1.0 '
             '(0.01, 0.1, 1e-6) and a negative coupling, both dynamics (F18); corpus witnesses of F13 and F18; all 8 graphs on 3 labelled '
-            'nodes x both dynamics x 3 state patterns exhaustively; '
+            'nodes x both dynamics x 3 state patterns exhaustively; 40 % of the generated cases come after 1-2 earlier runs on the SAME process and dynamics objects: whole runs '
+            'on another network (setNetworkGenerator between the runs; 1-11 nodes, more, fewer or as many as the case\'s, other order and edges, sparse ones before a complete '
+            'network) and runs abandoned inside set-up after the firings were posted (the wrapper around the process\' setUp raises after the original, or the scripted states '
+            'run out part-way; run(fatal=True) and run(fatal=False); own or another network), a further 15 % after one whole run on the same network; '
             'non-trivial = at least 3 firings and at least one cascade that moved a node; distinct by the whole case')
     TRUSTED = ['Coq 8.16.1 kernel incl. vm_compute',
                'harness/c20.py and vlib (scripted rng.random, recording of the arguments of the numeric maps, reading of '
